@@ -987,4 +987,68 @@ theorem filterMap_indices {α : Type} (rs : List (Option α)) :
         rw [hm']; simp
 
 
+/-! ## numbering follows the order of a LIST of found items (first occurrence decides) -/
+
+/-- append the items that are not yet present, in LIST order: the first occurrence decides the position -/
+def addNew {α : Type} [DecidableEq α] (vals xs : List α) : List α :=
+  xs.foldl (fun acc x => if x ∈ acc then acc else acc ++ [x]) vals
+
+theorem ipStep_vals (E : Env) (cfg : Cfg) (sl : St × Str) (ip : Str) (h : Inv E cfg sl.1)
+    (hi : ¬ ipIgnore.contains ip = true) :
+    (ipStep sl ip).1.ipDb.map Prod.snd =
+      if ip2int ip ∈ sl.1.ipDb.map Prod.snd then sl.1.ipDb.map Prod.snd
+      else sl.1.ipDb.map Prod.snd ++ [ip2int ip] := by
+  rw [ipStep_eq _ _ hi]
+  cases hl : lastKeyOf sl.1.ipDb (ip2int ip) with
+  | some k =>
+    have hm := lastKeyOf_some_mem _ _ _ hl
+    have hv : ip2int ip ∈ sl.1.ipDb.map Prod.snd := List.mem_map.mpr ⟨_, hm, rfl⟩
+    simp only [ip2db, hl, if_pos hv]
+  | none =>
+    have hnv := (lastKeyOf_none _ _).mp hl
+    rw [ip2db_new _ _ h.ipKeys hl, if_neg hnv]
+    simp
+
+theorem ipFold_vals (E : Env) (cfg : Cfg) : ∀ (ips : List Str) (sl : St × Str), Inv E cfg sl.1 →
+    (ips.foldl ipStep sl).1.ipDb.map Prod.snd =
+      addNew (sl.1.ipDb.map Prod.snd) ((ips.filter (fun ip => !ipIgnore.contains ip)).map ip2int) := by
+  intro ips
+  induction ips with
+  | nil => intro sl _; rfl
+  | cons ip rest ih =>
+    intro sl h
+    simp only [List.foldl_cons]
+    rw [ih _ (ipStep_pres E cfg sl ip h).1]
+    by_cases hi : ipIgnore.contains ip = true
+    · have hf : (ip :: rest).filter (fun ip => !ipIgnore.contains ip) = rest.filter (fun ip => !ipIgnore.contains ip) := by
+        rw [List.filter_cons, if_neg (by rw [hi]; simp)]
+      rw [ipStep_ignored _ _ hi, hf]
+    · have hf : (ip :: rest).filter (fun ip => !ipIgnore.contains ip) = ip :: rest.filter (fun ip => !ipIgnore.contains ip) := by
+        rw [List.filter_cons, if_pos (by simpa using hi)]
+      rw [hf, ipStep_vals E cfg sl ip h hi]
+      simp only [List.map_cons, addNew, List.foldl_cons]
+
+theorem hostStep_vals (E : Env) (cfg : Cfg) (hE : HexDigest E) (st : St) (hn : Str) (h : Inv E cfg st) :
+    (hn2db cfg st hn).1.hnDb.map Prod.snd =
+      if hn ∈ st.hnDb.map Prod.snd then st.hnDb.map Prod.snd else st.hnDb.map Prod.snd ++ [hn] := by
+  rcases hn2db_cases E cfg hE st hn h with ⟨e, hm⟩ | ⟨e, _, hnv⟩
+  · have hv : hn ∈ st.hnDb.map Prod.snd := List.mem_map.mpr ⟨_, hm, rfl⟩
+    rw [e, if_pos hv]
+  · rw [e, if_neg hnv]; simp
+
+theorem hostFold_vals (E : Env) (cfg : Cfg) (hE : HexDigest E) : ∀ (hs : List Str) (sl : St × Str), Inv E cfg sl.1 →
+    (hs.foldl (hostStep cfg) sl).1.hnDb.map Prod.snd = addNew (sl.1.hnDb.map Prod.snd) hs := by
+  intro hs
+  induction hs with
+  | nil => intro sl _; rfl
+  | cons x xs ih =>
+    intro sl h
+    simp only [List.foldl_cons]
+    rw [ih _ (hostStep_pres E cfg hE sl x h).1]
+    have : (hostStep cfg sl x).1.hnDb = (hn2db cfg sl.1 x).1.hnDb := rfl
+    rw [this, hostStep_vals E cfg hE sl.1 x h]
+    simp only [addNew, List.foldl_cons]
+    congr
+
+
 end IV.CleanState
